@@ -208,7 +208,7 @@ impl<T: Evaluate> Piecewise<T> {
                     && (!(seen && fgt(m, x)) ==> out.0 == self.ev(x))),                          // non-decreasing so far: exactly what direct evaluation returns
 //@sub self.segments[prev_seg..] =====> { let ghost s = self.segments@; let ghost p0 = prev_seg as int; let __sl = &self.segments[prev_seg..]; let mut __it = __sl
 //@sub .position(|seg| x < seg.end) =====> ; let ghost __rem = __it.remaining(); let __p = __it.position(|seg: &Segment<T>| -> (b: bool) ensures b == flt(x, seg.end) { x < seg.end }); proof { assert(__sl@ == s.subrange(p0, s.len() as int)); if sorted_ends(s) && ev_inv(s, p0, seen, m) && !nan(x) { match __p { Some(k) => { assert forall|j: int| p0 <= j < p0 + k implies !flt(x, #[trigger] s[j].end) by { assert(*__rem[j - p0] == s[j]); } assert(*__rem[k as int] == s[p0 + k]); lemma_step_found(s, p0, seen, m, x, k as int); } None => { assert forall|j: int| p0 <= j < s.len() implies !flt(x, #[trigger] s[j].end) by { assert(*__rem[j - p0] == s[j]); } lemma_step_none(s, p0, seen, m, x); } } } } __p }
-//@sub |i| i + prev_seg =====> |i: usize| -> (o: usize) requires i + prev_seg < usize::MAX ensures o == i + prev_seg { i + prev_seg }
+//@closure-spec |i| usize usize
 //@end
 }
 
